@@ -263,6 +263,8 @@ def run_session(job):
 
 def run_sessions(jobs, procs=16):
     import multiprocessing as mp
+    import kdriver as _K
+    jobs = _K.filter_buildable(jobs)
     if not jobs:
         return []
     ctx = mp.get_context('fork')
@@ -470,6 +472,8 @@ def run_threaded_session(job):
 
 def run_threaded_sessions(jobs, procs=16):
     import multiprocessing as mp
+    import kdriver as _K
+    jobs = _K.filter_buildable(jobs)
     if not jobs:
         return []
     ctx = mp.get_context('fork')
